@@ -23,7 +23,7 @@ def build(ctx, only_step=None):
     o = ctx.compile_many(objs)
     libo = [o['ts_%s.o' % f[:-4]] for f in LIBSRC]
     jobs = [('c12_sched', [o['c12_h.o']] + libo + [o['teamsched.o']], [WRAP], ['-lgmp']),
-            ('c12_free', [o['c12_free_h.o']] + libo + [o['gomp_pthread.o']], ['-fsanitize=thread', '-pthread'], ['-lgmp'])]
+            ('c12_free', [o['c12_free_h.o']] + libo + [o['gomp_pthread.o']], ['-fsanitize=thread', '-pthread'], ['-lgmpxx', '-lgmp'])]
     ctx.bins = ctx.compile_many(jobs)
 
 
@@ -51,6 +51,8 @@ def explore(ctx):
     try:
         r = subprocess.run([ctx.bins['c12_free'], '--tier', ctx.tier], capture_output=True, text=True, timeout=max(60, ctx.time_left()), env=env, errors='replace')
         n = r.stderr.count('WARNING: ThreadSanitizer: data race')
+        if 'REENTRANCY-MISMATCH' in r.stdout:
+            ctx.viols.append({'sig': 'C12.reentrancy-mismatch', 'case': 'free-running', 'detail': [l for l in r.stdout.split('\n') if l.startswith('REENTRANCY')][0], 'step': 'c12_free', 'noreplay': True})
         for line in r.stdout.split('\n'):
             if line.startswith('STAT free_running_executions'):
                 ctx.stats['free_running_executions'] = int(line.split()[2])
